@@ -926,6 +926,64 @@ def probes():
             ["stats['run time'] is not an immutable number"]
     P["immutable_targets"] = _immutable
 
+    # ---- second wave
+    def _coeff_ctor():
+        from qutip.core.cy.coefficient import (FunctionCoefficient, SumCoefficient, MulCoefficient,
+                                               ConjCoefficient, NormCoefficient, ConstantCoefficient,
+                                               InterCoefficient)
+        from qutip.core.coefficient import coefficient
+        c1 = q.coefficient(f_targs, args={"w": 1.0})
+        c2 = q.coefficient(np.array([0., 1., 4.]), tlist=np.array([0., .5, 1.]))
+        bad = []
+        bad += check(lambda f, d: FunctionCoefficient(f, d), [f_targs, {"w": 2.0}], name="FunctionCoefficient")
+        for cls in (SumCoefficient, MulCoefficient):
+            bad += check(lambda a, b: cls(a, b), [c1, c2], name=cls.__name__)
+        for cls in (ConjCoefficient, NormCoefficient):
+            bad += check(lambda a: cls(a), [c1], name=cls.__name__)
+        bad += check(lambda a, b: a + b, [c1, c2], name="coeff+coeff")
+        bad += check(lambda a, b: a + b, [c2, c2.copy()], name="inter+inter")
+        bad += check(lambda a, b: a * b, [c1, c2], name="coeff*coeff")
+        bad += check(lambda a, b: a * b, [c1, A0], name="coeff*qobj")
+        bad += check(lambda a: a.conj(), [c1], name="coeff.conj")
+        bad += check(lambda a, d: a.replace_arguments(d), [c1 + c1.conj() * c2, {"w": 4.0}],
+                     name="composite.replace_arguments")
+        bad += check(lambda a, b: InterCoefficient(a, b, 1, None), [np.array([0., 1., 4.]), np.array([0., .5, 1.])],
+                     name="InterCoefficient")
+        return bad
+    P["coeff_ctor_fresh"] = _coeff_ctor
+
+    def _br():
+        from qutip.core.blochredfield import bloch_redfield_tensor
+        spec = q.coefficient(lambda w: 0.1 * (w > 0), args={"w": 0})
+        a_ops = [[q.sigmax(), spec]]
+        return check(lambda H, a, c: bloch_redfield_tensor(H, a, c, fock_basis=True),
+                     [q.sigmaz(), a_ops, [q.sigmam()]], name="bloch_redfield_tensor")
+    P["br_tensor_fresh"] = _br
+
+    def _br_prep():
+        spec = q.coefficient(lambda w: 0.1 * (w > 0), args={"w": 0})
+        S = q.BRSolver(q.sigmaz(), [[q.sigmax(), spec]], [q.sigmam()], options={"progress_bar": False})
+        return _attrs_written(S, lambda s: s._prepare_rhs(), ["_init_rhs_time"], "_prepare_rhs")
+    P["br_prepare_rhs"] = _br_prep
+
+    def _floq():
+        from qutip.solver.floquet import FloquetBasis, floquet_tensor
+        H = q.QobjEvo([q.sigmaz(), [q.sigmax(), lambda t: np.sin(2 * np.pi * t)]])
+        fb = FloquetBasis(H, 1.0)
+        return check(lambda b, a, s: floquet_tensor(b, a, s), [fb, [q.sigmax()], [lambda w: 0.1 * (w > 0)]],
+                     name="floquet_tensor")
+    P["floquet_tensor_fresh"] = _floq
+
+    def _heom():
+        from qutip.solver.heom import HEOMSolver, DrudeLorentzBath
+        H = q.sigmaz() + 0.5 * q.sigmax()
+        bath = DrudeLorentzBath(q.sigmaz(), lam=0.1, gamma=1.0, T=1.0, Nk=1)
+        return check(lambda h, b, o: HEOMSolver(h, b, 2, options=o),
+                     [H, bath, {"progress_bar": False}], name="HEOMSolver()") + \
+            check(lambda h, b: HEOMSolver(h, b, 1),
+                  [q.QobjEvo([H, [q.sigmax(), f_t]]), [bath, bath]], name="HEOMSolver(evo, [baths])")
+    P["heom_ctor"] = _heom
+
     # mutating operations touch only the receiver, never the object it was copied from
     P["isolation"] = lambda: (
         isolated(evo, lambda c: c.__iadd__(B0), "__iadd__") +
@@ -1225,7 +1283,9 @@ def _run(ctx):
         "deep snapshots on every run, not proved; callbacks passed by the caller are assumed pure",
         "owned parameters (self of __init__ and of documented in-place methods, **kwargs, the stats "
         "dict handed to a result constructor) may be modified; Propagator.__init__ is covered for "
-        "system = Qobj/QobjEvo/list only (a Solver instance given as system is driven in place by design)",
+        "system = Qobj/QobjEvo/list only (a Solver instance given as system is driven in place by design); "
+        "QobjEvo._expect_dense / _mul_np_vec (temporary in-place reshape with restoration) are not "
+        "under the theorem (the checker has no notion of restoring a write): snapshot oracle only",
         "snapshot function of tools/c04.py (data buffers, index arrays, dims, element lists, "
         "coefficient values at 3 times and their args, dict items, result attributes)",
     ]
